@@ -207,6 +207,53 @@ def run(ctx):
                                       {'kind': 'textfile', 'src': src, 'expected': exp, 'encoding': enc})
     finally:
         shutil.rmtree(tmp, ignore_errors=True)
+    layer_loader_formats(ctx, 8 if ctx.quick else 100)
+
+
+def layer_loader_formats(ctx, n):
+    """One loader, one file, loaded as markup and as text in every order: the text load is a text template
+    (source copied verbatim, nothing escaped), whatever was loaded before under the same name."""
+    from chameleon import PageTemplateLoader
+    rng = ctx.rng
+    tmp = tempfile.mkdtemp(prefix='c20l_')
+    try:
+        for case in range(n):
+            name = 'f%d.txt' % case
+            body = rng.choice(['<p title="${v}" tal:content="v">B</p> & ${v} $$ <!-- c -->', 'a < b ${v}\n<br>', '${v}<i tal:replace="v"/>'])
+            with open(os.path.join(tmp, name), 'w') as f:
+                f.write(body)
+            v = '<A&>'
+            want_text = body.replace('${v}', v).replace('$$', '$')
+            loader = PageTemplateLoader(tmp)
+            seq = [rng.choice(['xml', 'text', None]) for _ in range(rng.randint(2, 5))]
+            if 'text' not in seq:
+                seq.append('text')
+            seen = {}
+            for step, fmt in enumerate(seq):
+                t = loader.load(name, fmt) if fmt else loader.load(name)
+                kind = 'text' if fmt == 'text' else 'xml'
+                try:
+                    out = t(v=v)
+                except Exception as e:
+                    out = 'RAISED %s' % type(e).__name__
+                if isinstance(out, bytes):
+                    out = out.decode('utf-8')
+                ctx.mon('loader-format-loads')
+                ctx.case(key=('loader-format', tuple(seq[:step + 1])), nontrivial=step > 0)
+                problems = []
+                if kind == 'text' and out != want_text:
+                    problems.append('loaded as text it rendered %r, the verbatim copy is %r' % (out, want_text))
+                if kind == 'xml' and '&lt;A&amp;&gt;' not in out and not out.startswith('RAISED'):
+                    problems.append('loaded as markup it rendered %r (value not escaped)' % out)
+                if kind in seen and seen[kind] is not t:
+                    problems.append('a second load in the same format returned another instance')
+                seen[kind] = t
+                if problems:
+                    ctx.violation('loader-format-history', 'file %r, loads %r: %s' % (body, seq[:step + 1], '; '.join(problems)),
+                                  {'kind': 'loaderfmt', 'src': body, 'seq': seq})
+                    break
+    finally:
+        shutil.rmtree(tmp, ignore_errors=True)
 
 
 def classify(parts, env, src, exp, got):
